@@ -14,6 +14,13 @@
 (*                        with the SubscribeHandler rejecting any subset,    *)
 (*                        every interleaving of the loop with resource       *)
 (*                        updates, other subscribers, cancellation, close.   *)
+(*  Notify_mc_caps.cfg    feature sets that become EMPTY and non-empty again *)
+(*                        (add / rm / clear) under an INFERRED capability,   *)
+(*                        sessions connecting while the set is empty or not: *)
+(*                        who was told listChanged is owed the notifications *)
+(*                        - also the one for the change that empties the set *)
+(*  Notify_mc_caps_shared(_t).cfg  the same for resources + templates, whose *)
+(*                        one capability is inferred from either set.        *)
 (*  Notify_lead_*.cfg     configurations in which TLC is EXPECTED to find a  *)
 (*                        counterexample (DESIGN.md section 9 lead 7 and the *)
 (*                        listen clean-up); run on NotifyGen so that the     *)
@@ -25,6 +32,14 @@ WantAll == [s \in Sessions |-> {NotifOf[k] : k \in Kinds}]
 \* M2 listens for prompts only
 WantM2 == [s \in Sessions |-> IF s = "M2" THEN {"prompts"} ELSE {NotifOf[k] : k \in Kinds}]
 
+\* where the capability of a notification comes from, and the initial sizes of the feature sets
+ModeInferred == [n \in Notifs |-> "inferred"]
+ModeFixed == [n \in Notifs |-> "fixed"]
+Size3 == [k \in Kinds |-> 3]
+Size1 == [k \in Kinds |-> 1]
+Size0 == [k \in Kinds |-> 0]
+SizeR1T0 == [k \in Kinds |-> IF k = "templates" THEN 0 ELSE 1]
+
 \* reachability witnesses (each must be VIOLATED, otherwise the configuration is vacuous)
 NeverWindow == ~(\E n \in Notifs : cbs[n] > 0 /\ ref[n] = "armed")       \* a Reset landed in the firedPending window
 NeverOrphan == ~(\E n \in Notifs, d \in Instants : orph[n][d] > 0)
@@ -33,5 +48,9 @@ NeverStopped == ~(\E n \in Notifs : cbs[n] > 0 /\ OnSessions = {} /\ budget.chg 
 \* a listen request fails after the server has already entered an earlier URI of it
 NeverPartial == ~(\E s \in Sessions : /\ lst[s].st = "run" /\ lst[s].n >= 1 /\ lst[s].n < Len(lst[s].uris)
                                         /\ lst[s].uris[lst[s].n + 1] \in lst[s].rej)
+\* a session that was told listChanged is owed a notification for a change that left every set of the notification empty
+NeverEmptied == ~(\E s \in Sessions, n \in Notifs : ent[s][n] /\ ~got[s][n] /\ \A k \in KindsOf(n) : size[k] = 0)
+\* ... and a session connected while the sets were empty (it was not told) sees the capability appear later
+NeverUntold == ~(\E s \in Sessions, n \in Notifs : sess[s] = "on" /\ ~told[s][n] /\ Adv(n, size))
 NeverHit == ~(\E s \in Sessions, c \in Slots : call[s][c].hit)
 =============================================================================
